@@ -85,8 +85,20 @@ def check_program(body, case, acc, bound, presets=None, max_runs=4000):
 
 # ---------------------------------------------------------------- chain family
 
-def chain_bounds(tier):
-    return {'quick': (3, 3), 'thorough': (4, 4)}[tier]   # (max depth, deviation bound)
+# per tier: (depth, decoration set, styles, scopes, deviation bound); shallower chains get the full product
+CHAIN_PLAN = {
+    'quick': [
+        (1, (0, 1, 2, 3), chains.STYLES, chains.SCOPES, 3),
+        (2, (0, 1, 2, 3), chains.STYLES, chains.SCOPES, 3),
+        (3, (0, 3), chains.STYLES, chains.SCOPES, 2),
+    ],
+    'thorough': [
+        (1, (0, 1, 2, 3), chains.STYLES, chains.SCOPES, 4),
+        (2, (0, 1, 2, 3), chains.STYLES, chains.SCOPES, 4),
+        (3, (0, 1, 2, 3), chains.STYLES, chains.SCOPES, 3),
+        (4, (0, 3), ('counter',), ('global', 'func'), 2),
+    ],
+}
 
 
 def check_chain(case, acc):
@@ -95,12 +107,12 @@ def check_chain(case, acc):
 
 
 def fam_chain(arg):
-    tier, depth, head = arg
+    tier, plan_ix, head = arg
+    depth, deco_set, styles, scopes, bound = CHAIN_PLAN[tier][plan_ix]
     acc = Acc('chain')
-    _, bound = chain_bounds(tier)
     for tail in itertools.product(range(len(chains.CONSTRUCTS)), repeat=depth - len(head)):
         levels = chains.chain_levels(tuple(head) + tail)
-        for spec in chains.specs_for_chain(levels):
+        for spec in chains.specs_for_chain(levels, deco_set, styles, scopes):
             acc.cases += 1
             check_chain({'spec': spec, 'bound': bound}, acc)
             if acc.cases % 997 == 1:
@@ -109,18 +121,19 @@ def fam_chain(arg):
 
 
 def chain_family(tier):
-    maxd, bound = chain_bounds(tier)
     shards = []
     expected = 0
     n = len(chains.CONSTRUCTS)
-    for depth in range(1, maxd + 1):
+    desc = []
+    for plan_ix, (depth, deco_set, styles, scopes, bound) in enumerate(CHAIN_PLAN[tier]):
         hl = min(depth, 2 if depth < 4 else 3)
         for head in itertools.product(range(n), repeat=hl):
-            shards.append((tier, depth, list(head)))
+            shards.append((tier, plan_ix, list(head)))
         for idx in chains.chains(depth):
-            expected += chains.count_for_chain(chains.chain_levels(idx))
+            expected += chains.count_for_chain(chains.chain_levels(idx), deco_set, styles, scopes)
+        desc.append(f'depth {depth}: decorations {list(deco_set)}, styles {list(styles)}, scopes {list(scopes)}, deviation bound {bound}')
     return Family('chain', fam_chain, shards,
-                  f'every nesting chain of the 11 (construct, slot) choices to depth {maxd} x decorations x leaves x 2 styles x 3 scopes; deviation bound {bound}, tape length <= {MAX_TAPE}',
+                  'every nesting chain of the 11 (construct, slot) choices x decorations x leaves x styles x scopes; ' + '; '.join(desc) + f'; tape length <= {MAX_TAPE}',
                   expected=expected)
 
 
